@@ -21,9 +21,9 @@ CASE_TIMEOUT = 60
 WALL = {"quick": 900, "thorough": 7200}
 REQUIRED = {"graphs_compared": 2000, "fasta": 300, "ig": 300, "txt": 300, "seq_list": 200, "gen_seq_specs": 300,
             "circular": 60, "single_residue": 30, "json_round_trips": 300, "connect_records": 200, "termini_renamed": 100,
-            "labels": 100, "letters_seen": 29, "no_trailing_newline": 200, "multi_edge_connect_records": 50}
+            "labels": 100, "letters_seen": 30, "json_labelled_edges": 300, "fasta_with_further_records": 50, "no_trailing_newline": 200, "multi_edge_connect_records": 50}
 DNA = {"A": "DA", "C": "DC", "G": "DG", "T": "DT"}
-RNA = {"A": "A", "C": "C", "G": "G", "T": "U"}
+RNA = {"A": "A", "C": "C", "G": "G", "T": "U", "U": "U"}       # uracil is written U in RNA files (T is tolerated)
 AA = {"G": "GLY", "A": "ALA", "V": "VAL", "C": "CYS", "P": "PRO", "L": "LEU", "I": "ILE", "M": "MET", "W": "TRP",
       "F": "PHE", "S": "SER", "T": "THR", "Y": "TYR", "N": "ASN", "Q": "GLN", "K": "LYS", "R": "ARG", "H": "HIS",
       "D": "ASP", "E": "GLU", "O": "HYP"}
@@ -92,11 +92,13 @@ def run_case(cid, rng, workdir):
     if cid[0] == "seq":
         return run_seq(cid, rng, workdir, res)
     kind = rng.choice(["DNA", "RNA", "PROTEIN"])
-    fmt = rng.choice(["fasta", "ig", "txt"])
+    fmt = rng.choice(["fasta", "ig", "txt", "json"])
+    if fmt == "json":
+        return run_json(cid, rng, workdir, res)
     n = rng.choice([1, 2, 3]) if rng.random() < 0.15 else rng.randint(2, 60 if rng.random() < 0.9 else 200)
     if kind != "PROTEIN" and fmt != "txt":
         n = max(n, 2)
-    alpha = {"DNA": "ACGT", "RNA": "ACGT", "PROTEIN": "".join(AA)}[kind]
+    alpha = {"DNA": "ACGT", "RNA": "ACGTU", "PROTEIN": "".join(AA)}[kind]
     seq = "".join(rng.choice(alpha) for _ in range(n))
     for c in seq:
         note(res, "letters_seen", kind[0] + c)
@@ -122,6 +124,12 @@ def run_case(cid, rng, workdir):
     elif fmt == "fasta":
         head = ">%s %s" % (kind, rng.choice(["sample", "chain X", "test sequence 42"]))
         text = head + "\n" + "\n".join(brk(rng, seq)) + "\n"
+        if rng.random() < 0.25:
+            # further records: only the first sequence of the file is the input
+            for _ in range(rng.randint(1, 2)):
+                other = "".join(rng.choice(alpha) for _ in range(rng.randint(1, 12)))
+                text += ">%s second chain\n" % kind + "\n".join(brk(rng, other)) + "\n"
+            bump(res, "fasta_with_further_records")
         p = Path(workdir) / "s.fasta"
     else:
         lines = brk(rng, seq)
@@ -129,7 +137,7 @@ def run_case(cid, rng, workdir):
         comments = ["; a %s sequence" % kind]
         if rng.random() < 0.3:
             comments.append("; second comment line")
-        text = "\n".join(comments) + "\n" + rng.choice(["title", "my title x", "seq-0"]) + "\n" + "\n".join(lines) + "\n"
+        text = "\n".join(comments) + "\n" + rng.choice(["title", "my title x", "seq-0", "SEQ1", "strand 2", "chr12"]) + "\n" + "\n".join(lines) + "\n"
         p = Path(workdir) / "s.ig"
         if circ:
             edges = edges | {frozenset((1, n))}
@@ -154,6 +162,58 @@ def run_case(cid, rng, workdir):
         violation(res, "valid-sequence-rejected:%s:%s" % (fmt, type(err).__name__), "%s: %s" % (type(err).__name__, str(err)[:150]), w)
         return res
     compare(res, m, names, edges, labels, fmt + (":circular" if circ else "") + ":" + kind, w)
+    return res
+
+
+def run_json(cid, rng, workdir, res):
+    """a residue graph file: residues with ids 1..n listed in any order under any node keys, edges with and
+    without labels, extra residue attributes"""
+    from polyply.src.meta_molecule import MetaMolecule
+    from ..gen import resgraph as RG
+    n = rng.choice([1, 2, 3]) if rng.random() < 0.15 else rng.randint(2, 40)
+    keys = list(range(n))
+    mode = rng.choice(["0..n-1", "shifted", "permuted"])
+    if mode == "shifted":
+        keys = [k + 7 for k in keys]
+    elif mode == "permuted":
+        rng.shuffle(keys)
+    nodes = [{"key": keys[i], "resname": rng.choice(["PEO", "PS", "A", "B12", "OHter"]), "resid": i + 1} for i in range(n)]
+    node_labels = {}
+    for i, nd in enumerate(nodes):
+        if rng.random() < 0.2:
+            nd["chiral"] = rng.choice(["R", "S"])
+            node_labels[i + 1] = {"chiral": nd["chiral"]}
+    pairs = {frozenset((i, i + 1)) for i in range(n - 1)} if rng.random() < 0.5 else \
+        {frozenset((rng.randrange(i), i)) for i in range(1, n)}
+    if n >= 4 and rng.random() < 0.4:
+        pairs.add(frozenset(rng.sample(range(n), 2)))
+    edges, labels, gedges = set(), {}, []
+    for pr in sorted(pairs, key=sorted):
+        a, b = sorted(pr)
+        lab = rng.choice([None, None, "a", "circle", "x1"])
+        gedges.append((keys[a], keys[b], lab))
+        edges.add(frozenset((a + 1, b + 1)))
+        if lab:
+            labels[frozenset((a + 1, b + 1))] = {"linktype": lab}
+    order = list(range(n))
+    rng.shuffle(order)
+    p = Path(workdir) / "s.json"
+    RG.to_json({"nodes": nodes, "edges": gedges}, str(p), order=order, flip=[rng.random() < 0.5 for _ in gedges])
+    text = p.read_text()
+    bump(res, "json")
+    bump(res, "json_labelled_edges", len(labels))
+    res["sig"] = sig_of(["json", text])
+    res["sample"] = {"format": "json", "length": n, "node_keys": mode, "labelled_edges": len(labels)}
+    res["nontrivial"] = n >= 2
+    w = {"file": p.name, "text": text[:3000]}
+    try:
+        m = MetaMolecule.from_sequence_file(None, p, "t")
+    except Exception as err:      # noqa
+        if type(err).__name__ == "CaseTimeout":
+            raise
+        violation(res, "valid-sequence-rejected:json:%s" % type(err).__name__, "%s: %s" % (type(err).__name__, str(err)[:150]), w)
+        return res
+    compare(res, m, [nd["resname"] for nd in nodes], edges, labels, "json:" + mode, w, node_labels=node_labels)
     return res
 
 
